@@ -100,7 +100,7 @@ type exchange struct {
 }
 
 func NewRawBackend(index int) (*RawBackend, error) {
-	ln, err := net.Listen("tcp", "127.0.0.1:0")
+	ln, err := ListenLoopback()
 	if err != nil {
 		return nil, err
 	}
@@ -487,7 +487,7 @@ func NewSocketLab(strategy string, o SocketOpts) (*SocketLab, error) {
 		l.Close()
 		return nil, err
 	}
-	ln, err := net.Listen("tcp", "127.0.0.1:0")
+	ln, err := ListenLoopback()
 	if err != nil {
 		l.Close()
 		return nil, err
@@ -618,7 +618,7 @@ type ClientConn struct {
 }
 
 func Dial(addr string) (*ClientConn, error) {
-	c, err := net.DialTimeout("tcp", addr, 5*time.Second)
+	c, err := DialLoopback(addr, 5*time.Second)
 	if err != nil {
 		return nil, err
 	}
